@@ -7,9 +7,17 @@ BKDef == {<<>>, <<1>>, <<1,2>>, <<2>>, <<1,2,2>>, <<2,2,2>>}
 States == {1,2}
 Deltas == [States -> [SymDef -> States]]
 Reach(d, s) == LET RECURSIVE F(_) F(S) == LET T == S \cup { d[x][b] : x \in S, b \in SymDef } IN IF T = S THEN S ELSE F(T) IN F({s})
-AutDef == UNION { { [start |-> 1, delta |-> d, match |-> m, can |-> c] :
+NoEof == [s \in States |-> 0]
+AutDef == UNION { { [start |-> 1, delta |-> d, match |-> m, can |-> c, eof |-> NoEof] :
                      c \in { C \in SUBSET States : \A s \in States : (Reach(d,s) \cap m # {}) => s \in C } }
                   : d \in Deltas, m \in SUBSET States }
-AlwaysOnly == { [start |-> 1, delta |-> [s \in {1} |-> [b \in SymDef |-> 1]], match |-> {1}, can |-> {1}] }
+AlwaysOnly == { [start |-> 1, delta |-> [s \in {1} |-> [b \in SymDef |-> 1]], match |-> {1}, can |-> {1}, eof |-> [s \in {1} |-> 0]] }
+\* automata with an end-of-key hook (beyond C04, which excludes it): every hook table that is
+\* not all-None, every sound can-assignment with respect to acceptance at the end of a key
+EofAccept(m, e) == { s \in States : IF e[s] # 0 THEN e[s] \in m ELSE s \in m }
+AutEof == UNION { { [start |-> 1, delta |-> d, match |-> m, can |-> c, eof |-> e] :
+                     c \in { C \in SUBSET States : \A s \in States : (Reach(d,s) \cap EofAccept(m, e) # {}) => s \in C } }
+                  : d \in Deltas, m \in SUBSET States, e \in [States -> 0..2] \ {NoEof} }
+BKTiny == {<<>>, <<1, 2>>}
 BKSmall == {<<>>, <<1>>, <<1, 2>>, <<2, 2, 2>>}
 =============================================================================
